@@ -25,7 +25,7 @@ type Entry struct {
 //	uint64 123 | uint32 123u32 | byte 123u8 | bool | string %q
 //	struct {f0:… f1:…} | pointer nil / &#k=<contents> on first visit / &#k later
 //	slice [e0 e1 …] (nil = empty) | map map[k:v …] sorted by key (nil = empty)
-const canonSrc = `package main
+const canonSrc = `package zzcanon
 
 import (
 	"fmt"
@@ -96,7 +96,8 @@ func (c *zzCanon) val(v reflect.Value) string {
 	return "<unprintable " + v.Kind().String() + ">"
 }
 
-func zzCanonAll(vs ...interface{}) string {
+// All renders result values.
+func All(vs ...interface{}) string {
 	c := &zzCanon{seen: map[zzPtrKey]int{}}
 	var parts []string
 	for _, v := range vs {
@@ -105,7 +106,8 @@ func zzCanonAll(vs ...interface{}) string {
 	return strings.Join(parts, " | ")
 }
 
-func zzRun(name string, f func() string) {
+// Run runs one entry and prints its canonical result or its panic.
+func Run(name string, f func() string) {
 	defer func() {
 		if r := recover(); r != nil {
 			fmt.Fprintf(os.Stdout, "%s PANIC %v\n", name, strings.ReplaceAll(fmt.Sprint(r), "\n", " "))
@@ -126,6 +128,7 @@ type GoRunner struct {
 // under test, go.sum copied from it).
 func NewGoRunner() (*GoRunner, error) {
 	dir := filepath.Join(ev.Scratch(), "gorun")
+	os.RemoveAll(dir)
 	if err := os.MkdirAll(dir, 0o755); err != nil {
 		return nil, err
 	}
@@ -146,18 +149,18 @@ func NewGoRunner() (*GoRunner, error) {
 // shim renders main() calling every entry and printing canonical results.
 func shim(entries []Entry) string {
 	var sb strings.Builder
-	sb.WriteString("package main\n\nfunc main() {\n")
+	sb.WriteString("package main\n\nimport \"gcase/zzcanon\"\n\nfunc main() {\n")
 	for _, f := range entries {
 		n := f.NResults
 		var rs []string
 		for i := 0; i < n; i++ {
 			rs = append(rs, fmt.Sprintf("r%d", i))
 		}
-		fmt.Fprintf(&sb, "\tzzRun(%q, func() string {\n", f.Name)
+		fmt.Fprintf(&sb, "\tzzcanon.Run(%q, func() string {\n", f.Name)
 		if n == 0 {
-			fmt.Fprintf(&sb, "\t\t%s()\n\t\treturn zzCanonAll()\n", f.Name)
+			fmt.Fprintf(&sb, "\t\t%s()\n\t\treturn zzcanon.All()\n", f.Name)
 		} else {
-			fmt.Fprintf(&sb, "\t\t%s := %s()\n\t\treturn zzCanonAll(%s)\n", strings.Join(rs, ", "), f.Name, strings.Join(rs, ", "))
+			fmt.Fprintf(&sb, "\t\t%s := %s()\n\t\treturn zzcanon.All(%s)\n", strings.Join(rs, ", "), f.Name, strings.Join(rs, ", "))
 		}
 		sb.WriteString("\t})\n")
 	}
@@ -180,7 +183,8 @@ func (e *BuildError) Error() string { return "generated program does not compile
 // runs it.
 func (r *GoRunner) Run(src string, entries []Entry) (*GoResult, error) {
 	r.n++
-	for name, content := range map[string]string{"prog.go": src, "zz_canon.go": canonSrc, "zz_main.go": shim(entries)} {
+	os.MkdirAll(filepath.Join(r.Dir, "zzcanon"), 0o755)
+	for name, content := range map[string]string{"prog.go": src, "zzcanon/canon.go": canonSrc, "zz_main.go": shim(entries)} {
 		if err := os.WriteFile(filepath.Join(r.Dir, name), []byte(content), 0o644); err != nil {
 			return nil, err
 		}
